@@ -46,6 +46,7 @@ def generate(tier, seed):
             nm_ = len(c['names'])
             c['band_orders'] = [rng.sample(list(range(nm_)), nm_) for _ in c['wav']]
         # in half of the cases the Fitter has already fitted 1-2 other sources (rows must still describe one model each)
+        c['resort'] = k % 3 == 1
         if k % 2:
             c['warmup'] = [fitcase.gen_source(rng, len(c['wav']), min_fitted=2 if mode == '2d' else 1) for _ in range(rng.randint(1, 2))]
         cases.append(c)
@@ -99,6 +100,12 @@ def judge(case, im, mo):
         if math.isnan(a) and not math.isnan(b) or (not math.isnan(a) and not math.isnan(b) and a > b):
             fail.append('ranking: chi2 decreases from row %d (%r) to row %d (%r)' % (i, a, i + 1, b))
             break
+    if im.get('resorted'):
+        rs = im['resorted']
+        for i, mid in enumerate(rs['model_id']):
+            if not (0 <= mid < n) or rs['model_name'][i] != case['names'][mid]:
+                fail.append('row: after sorting the (already sorted) result once more, row %d names %s but carries index %d (%s)' % (i, rs['model_name'][i], mid, case['names'][mid] if 0 <= mid < n else '?'))
+                break
     # stored predictions: log model flux + A_V k - 2 scale (2-D); 3-D is checked by the 'flux' clause of the C02 oracle
     if case['mode'] == '2d':
         import numpy as np
